@@ -53,6 +53,16 @@ PROPS['C06'] = {'module': 'infer',
     'technique': 'TLC exhaustive model check of the transcribed _init_size/set_best_sizes loops against the minimal exact format (all arrays of <=2 dyadics, 3 signedness settings, 5 variants of given sizes, cap scaled to 8) + replay of every configuration on the real constructor (n_word_max=8) + TLC trace validation of seeded dyadics up to 2^40/2^-20 and capped random doubles',
     'level_text': 'FxpBest transcribes the fraction-search loop, the msb integer-bit loop and the caps; TLC checks for every array of up to two values k/2^f (|k|<=KMAX, f<=FMAX), default/signed/unsigned and each variant of unspecified sizes that it yields the minimal format (minimality also stated directly by quantifying over all smaller formats), never above the cap; every configuration is executed on the real constructor and TLC judges format, exactness of every stored value, absence of flags, and the capped branch (error < 1 LSB, flagged); dyadics to 2^40 with f<=20, arrays <=5, boundary values +-2^k and 2^k-LSB, and random doubles with the real cap 64 are sampled.',
     'level_note': _AR_NOTE + ' The significand of the small world is scaled with the cap (5-bit significands for cap 8) as explained in DESIGN.md section 5 C06.'}
+_TX_NOTE = ('Trusted: TLC/SANY, the JVM, FxpText (images) and FxpParse (transcribed parsers; MC_Text checks Parse(Render(code)) = code and '
+            'ParseFmt(FmtString(format)) = format), Python only maps str <-> list of code points. Strings fed back are the ones the real code rendered.')
+PROPS['C11'] = {'module': 'text',
+    'technique': 'TLC exhaustive model check on character-code sequences (image length/digits, transcribed parsers restore every code) + replay of every code of every small format through bin/hex/base_repr and all parse-back routes on the real code + TLC trace validation of boundary/random codes up to 256 bits',
+    'level_text': 'For every code of every format with 2<=n_word<=W, 0<=n_frac<=n_word TLC checks the two-complement image, the hex image, the sign-magnitude numerals and that the transcribed strbin2int/strbin2float/strhex2int restore the code in value and raw mode; on the real code every rendering (scalars, 1-D, 2-D; with/without point and prefix; base_repr in 5 bases) is compared by TLC with the image, and every rendered string is fed back by constructor, call, set_val, from_bin (method and function) in value and raw mode and TLC checks the restored codes, format and shape; n_word up to 256 is sampled at boundary and random codes.',
+    'level_note': _TX_NOTE}
+PROPS['C12'] = {'module': 'text',
+    'technique': 'TLC exhaustive model check of both dtype grammars against the renderers for n_word<=WD, -8<=n_frac<=n_word+8, complex, all spellings and cases + replay on the real code (Fxp(dtype=), resize(dtype=), get_dtype under both defaults, fxp_sum(dtype=)/get_sizes_from_dtype) + TLC trace validation up to 256 bits',
+    'level_text': 'TLC generates every spelling (fxp with/without -complex, upper/lower case, Q/UQ and S/U) of every small format and checks the transcribed _parseformatstr maps it back; on the real code TLC compares x.dtype and get_dtype(notation) under both configured defaults with the specified string, and the format obtained from Fxp(dtype=s), resize(dtype=s), Fxp(dtype=x.dtype) and get_sizes_from_dtype(s) with the original; n_word up to 256 is sampled through the render-and-feed-back route.',
+    'level_note': _TX_NOTE}
 
 NOT_APPLICABLE = {}
 
